@@ -250,6 +250,7 @@ pub fn run_c02(ctx: &mut Ctx) {
          Non-trivial: some stream has content or noise is present; distinct by (records, buffer, schedule seed)");
     let mut rng = ctx.rng.fork();
     for ci in 0..ctx.n(700, 3_000) {
+        if or.saturated() { or.count("stopped_early_saturated"); break; }
         let big = ci % 23 == 7;
         let mc = 1 + rng.usize_below(500);
         let nl = rng.below(6);
@@ -355,6 +356,7 @@ pub fn run_c18(ctx: &mut Ctx) {
     or.exhaustive.push("3 roles x all current selections x all 12 requested selections".into());
     // --- data flow with every stream type in every order
     for ci in 0..ctx.n(500, 10_000) {
+        if or.saturated() { or.count("stopped_early_saturated"); break; }
         let role = rng.range(1, 3) as u16;
         let id = rng.range(1, 65535) as u16;
         let mc = 5;
@@ -386,6 +388,7 @@ pub fn run_c18(ctx: &mut Ctx) {
     }
     // --- switching to the next stream in the MIDDLE of a record of the current one: the rest of that record must never surface
     for ci in 0..ctx.n(150, 3000) {
+        if or.saturated() { or.count("stopped_early_saturated"); break; }
         let id = rng.range(1, 65535) as u16;
         let la = 1 + rng.usize_below(60); let lb = 1 + rng.usize_below(40); let a = rng.bytes(la); let b = rng.bytes(lb);
         let recs = vec![Rec::new(T_STDIN, id, a.clone(), pad_bytes(&mut rng)), Rec::new(T_DATA, id, b.clone(), pad_bytes(&mut rng)), Rec::new(T_DATA, id, vec![], vec![])];
@@ -426,6 +429,7 @@ pub fn run_c18(ctx: &mut Ctx) {
 pub fn c04_str(ctx: &mut Ctx, log: &mut Log, im: &mut Impl, or: &mut Oracle) {
     let mut rng = ctx.rng.fork();
     for ci in 0..ctx.n(300, 6000) {
+        if or.saturated() { or.count("stopped_early_saturated"); break; }
         let mc = 1 + rng.usize_below(100_000);
         let nl = 3 + rng.below(6);
         let case = gen_stream_case(&mut rng, nl, mc, false);
@@ -470,6 +474,7 @@ pub fn c04_str(ctx: &mut Ctx, log: &mut Log, im: &mut Impl, or: &mut Oracle) {
 pub fn c03_str(ctx: &mut Ctx, log: &mut Log, im: &mut Impl, or: &mut Oracle) {
     let mut rng = ctx.rng.fork();
     for ci in 0..ctx.n(400, 9000) {
+        if or.saturated() { or.count("stopped_early_saturated"); break; }
         let mc = 1 + rng.usize_below(50);
         let nl = rng.below(5);
         let case = gen_stream_case(&mut rng, nl, mc, false);
@@ -559,6 +564,7 @@ pub fn run_c05(ctx: &mut Ctx) {
          oracle: every environment and every fully-read stream equals what was sent for that request, leftovers are exactly the unread suffix. Non-trivial: k >= 2 or unread input; distinct by (wire, buffer, schedule)");
     let mut rng = ctx.rng.fork();
     for ci in 0..ctx.n(1000, 6000) {
+        if or.saturated() { or.count("stopped_early_saturated"); break; }
         let k = 1 + rng.usize_below(4);
         let mc = 1 + rng.usize_below(64);
         let b = *rng.pick(&[64usize, 96, 128, 256, 1024, 8192]);
